@@ -24,8 +24,8 @@ RULE = ('Generated panels (2-6 geos quick / 2-7 thorough; 8-20 greedy-only) wher
 ASSUMPTIONS = ['series tolerance 1e-12 x number of geos (summation order); derived values 1e-7..1e-9 relative; '
                'test outcomes compared exactly unless within 1e-9 of flipping']
 EXHAUSTIVE = {'quick': False, 'thorough': False}
-MINIMA = {'quick': {'designs_checked': 400, 'distinct_nontrivial': 50, 'truncated_window_cases': 30},
-          'thorough': {'designs_checked': 6000, 'distinct_nontrivial': 1000, 'truncated_window_cases': 400}}
+MINIMA = {'quick': {'shared_data_searches': 40, 'designs_checked': 400, 'distinct_nontrivial': 50, 'truncated_window_cases': 30},
+          'thorough': {'shared_data_searches': 400, 'designs_checked': 6000, 'distinct_nontrivial': 1000, 'truncated_window_cases': 400}}
 N = {'quick': 480, 'thorough': 4000}
 N_LARGE = {'quick': 16, 'thorough': 120}
 CASE_TIMEOUT = {'quick': 300, 'thorough': 900}
@@ -76,8 +76,10 @@ def run_case(spec):
   max_returned = 0
   shuffled_index = False
   par = sl.shadow_params(case)
+  shared = spec['idx'] % 4 == 1      # A.search -> B.search (same data object) -> A.search, last call judged
   for which in which_list:
-    rec = sl.run_search(case, which)
+    rec = sl.run_search(case, which, interleave=(r if shared else None))
+    counters['shared_data_searches'] += bool(rec.get('interleaved'))
     if not rec['outcome'].ok or rec['designs'] is None:
       outcomes.append(sp.search_failed(rec, which) if not rec['outcome'].ok else which + ':unreadable')
       counters['search_raised'] += 1
